@@ -6,6 +6,7 @@ from sim.oracle import Violation, check_invocations, check_response
 from sim.scenario import build_scenario
 from sim.tape import Tape
 
+from . import microworld
 from .common import base_evidence, bump, digest_of, pair_hash
 from .incremental import run_incremental
 
@@ -39,6 +40,12 @@ def account(stats, sim, knobs, al, results):
 
 
 def run_unit(seed=None, unit=None, tier="quick", stats=None):
+    if unit is not None:
+        world = unit.get("world", "W1")
+    else:
+        world = "W2" if seed[2] % 3 == 2 else "W1"
+    if world == "W2":
+        return microworld.run_unit(seed=seed, unit=unit, tier=tier, stats=stats, prop=PROP)
     n_sched = 3 if tier == "quick" else 6
     if unit is not None:
         ptape = Tape(values=unit["plan"])
@@ -68,7 +75,7 @@ def run_unit(seed=None, unit=None, tier="quick", stats=None):
         st = (Tape(values=sched_values[r]) if sched_values is not None
               else Tape((seed, "sched", r)))
         sched_tapes.append(st)
-        sim, reqs, results, status, knobs, al, _stops = run_incremental(scn, st)
+        sim, reqs, results, status, knobs, al, _stops = run_incremental(scn, st, lenient=True)
         bump(stats, "counts", "execs", len(reqs))
         account(stats, sim, knobs, al, results)
         vs = []
@@ -93,9 +100,14 @@ def run_unit(seed=None, unit=None, tier="quick", stats=None):
                                     {"type": type(rr.error).__name__, "where": "subsequent"},
                                     {"error": repr(rr.error)}))
                 continue
-            if rr.protocol_error is not None or not rr.ended:
-                # reported by the C05 / C06 checks; assembly is meaningless here
-                bump(stats, "probes", "runs_with_protocol_error_or_no_end")
+            if rr.monitor.protocol_errors:
+                # protocol violations are C05's business; the assembly goes on without them
+                bump(stats, "probes", "runs_with_protocol_errors_tolerated")
+            if not rr.ended:
+                vs.append(Violation(PROP, "assembled_mismatch",
+                                    {"clause": "stream_never_ended", "early": knobs.early},
+                                    {"waiting": rr.waiting,
+                                     "pending": list(rr.monitor.pending.values())}))
                 continue
             vs += check_assembled(PROP, rr.monitor, rs, knobs.early)
             iv = check_invocations(PROP, reqs[i], rs.result0, None, who="incremental",
@@ -123,7 +135,7 @@ def run_unit(seed=None, unit=None, tier="quick", stats=None):
                 "assembled": results[j].monitor.data,
             }
         sim.close()
-    info["unit"] = {"plan": ptape.used(), "scheds": [t.used() for t in sched_tapes]}
+    info["unit"] = {"world": "W1", "plan": ptape.used(), "scheds": [t.used() for t in sched_tapes]}
     info["digest"] = digest_of(digests)
     info["render"] = scn.render()
     return violations, info
@@ -134,17 +146,22 @@ def evidence(stats, units, distinct, samples, tier, seed, wall, violations):
     stats = dict(stats)
     stats["rejected"] = c.get("rejected", 0)
     return base_evidence(
-        PROP, tier, seed, wall, violations, c.get("execs", 0), distinct,
-        "unit = one generated scenario with @defer/@stream (nested, labelled/unlabelled, if:false / "
+        PROP, tier, seed, wall, violations, c.get("execs", 0) + c.get("w2_runs", 0), distinct,
+        "two of three units: one generated scenario with @defer/@stream (nested, labelled/unlabelled, if:false / "
         "if:$var, overlapping with plain selections, fragments spread deferred and plain, stream over "
         "lists, generators and async iterators) executed through experimental_execute_incrementally "
         "on SimLoop under several seeded schedules x {early execution on/off} x queue capacity "
         "{1,2,3,100} x consumer pull policy {eager, gated, lazy}; payloads are merged by an "
         "independent merge function and compared with the reference model run with directives "
         "ignored (exact when error-free or non-propagating, refinement otherwise); distinct by "
-        "(scenario digest, event-log digest); non-trivial = >= 2 externals or >= 1 injected fault",
+        "(scenario digest, event-log digest); non-trivial = >= 2 externals or >= 1 injected fault. "
+        "Every third unit is a W2 work graph (checks/microworld.py) driven through the real "
+        "WorkQueue/IncrementalPublisher/StreamItemQueue, checked for conservation: every value of a "
+        "deliverable fragment arrives exactly once at its path, nothing of a failed fragment arrives, "
+        "fragments/streams are reported failed iff they failed",
         samples, stats,
-        extra={"units": units, "knobs": stats.get("knobs", {}),
+        extra={"units": units, "w2_runs": c.get("w2_runs", 0),
+               "w2_graph_shapes": stats.get("w2_shapes", {}), "knobs": stats.get("knobs", {}),
                "result_kinds": stats.get("result_kinds", {}),
                "document_features": stats.get("doc_features", {}),
                "payloads_per_run_histogram": stats.get("payload_hist", {})},
